@@ -783,8 +783,8 @@ the whole tracker: jitter, the fast / slow windows, `masd`, `avg_delta` are also
 `C14_rtt_changes_only_by_sys` says so) but are not restated here, and the probe bookkeeping (`waiting`,
 `last_keepalive_sent_ms`) may move.
 `hnr` (on the last event `e` only; `pre` may contain reloads): over events / runs that keep the link set (no
-`Ev.reload`); a reload keeps the whole record of every retained link (`Props/SysReload.lean: reload_frame`) and the
-theorem applies again from the state after it. -/
+`Ev.reload`); a reload keeps the whole record of every retained link (`Props/SysReload.lean: reload_frame`) and the theorem
+applies again from the state after it. -/
 theorem C14_sample_only_from_echo_sys (s : Sys F) (pre : List Ev) (e : Ev) (hnr : e.isReload = false)
     (j : Nat) (l l' : FLink F)
     (hl : (Sys.run s pre).1.links[j]? = some l) (hl' : (Sys.run s (pre ++ [e])).1.links[j]? = some l') :
